@@ -41,6 +41,12 @@ type flowStep struct {
 	// Forged (answer): Mallory takes an assertion the IdP issued for no request (signed, no InResponseTo anywhere), strips the outer
 	// signature and writes the victim flow's request ID into the unsigned envelope
 	Forged bool `json:"forged_envelope,omitempty"`
+	// ForgedFrom (answer, with Forged; k > 0 means flow k-1): the assertion Mallory re-wraps is the IdP's genuine answer to that
+	// flow's request (her own login) - every InResponseTo inside the signature names it - and only the unsigned envelope names the victim's
+	ForgedFrom int `json:"forged_from_flow_plus_1,omitempty"`
+	// Method (answer): the confirmation method the IdP writes ("" bearer). Whatever the method, the confirmation's signed
+	// InResponseTo says which request the assertion answers
+	ConfMethod string `json:"confirmation_method,omitempty"`
 	// Artifact (deliver): the IdP brings the browser back with GET acs?SAMLart=..&RelayState=.. (deployments with the artifact response binding)
 	Artifact bool   `json:"via_artifact,omitempty"`
 	Resp     int    `json:"resp,omitempty"`
@@ -55,7 +61,10 @@ var flowURLs = []string{"/page1", "/page2?x=1&y=%2F", "/deep/er/path", "/page1?a
 var jarPolicies = []string{"faithful", "faithful", "faithful", "faithful", "subset", "dup-under-other-name", "other-only", "none", "renamed", "swapped", "expired-kept", "forged", "session-as-tracking", "cross-browser",
 	// everything the browser holds (so the response does answer a presented, authentic cookie) plus a cookie Mallory planted under a name of
 	// her own: right claims, her key, her landing page
-	"faithful-plus-planted", "faithful-plus-planted"}
+	"faithful-plus-planted", "faithful-plus-planted",
+	// everything the browser holds, behind cookies that merely share the tracking prefix: another application's saml_idp_hint, the garbled or
+	// expired leftovers of abandoned flows. They are nobody's tracking cookies; the flow's own cookie is there, authentic and fresh
+	"junk-ahead", "junk-ahead"}
 var relayPolicies = []string{"echo", "echo", "echo", "echo", "other", "absent", "arbitrary", "planted"}
 
 const plantedIndex = "zQplantedQz"
@@ -92,7 +101,14 @@ func genFlows(g *Rng, tier string) *Plan {
 			steps = append(steps, st)
 			nflows++
 		case c == 1 || nresps == 0:
-			steps = append(steps, flowStep{Kind: "answer", Flow: g.Intn(nflows), User: g.Intn(4), Unsolicited: fault && g.Bool(0.2), Forged: fault && g.Bool(0.12)})
+			as := flowStep{Kind: "answer", Flow: g.Intn(nflows), User: g.Intn(4), Unsolicited: fault && g.Bool(0.2), Forged: fault && g.Bool(0.15)}
+			if as.Forged && nflows > 1 && g.Bool(0.5) {
+				as.ForgedFrom = 1 + g.Intn(nflows)
+			}
+			if g.Bool(0.2) {
+				as.ConfMethod = Pick(g, "urn:oasis:names:tc:SAML:2.0:cm:holder-of-key", "urn:oasis:names:tc:SAML:2.0:cm:sender-vouches")
+			}
+			steps = append(steps, as)
 			nresps++
 		case c == 2:
 			st := flowStep{Kind: "deliver", Resp: g.Intn(nresps), B: -1, Jar: "faithful", Relay: "echo", Other: g.Intn(nflows), Artifact: g.Bool(0.5)}
@@ -138,6 +154,17 @@ func genFlows(g *Rng, tier string) *Plan {
 		steps = append(steps, flowStep{Kind: "advance", Ms: k.MaxIssueDelayMs + Pick(g, int64(3000), 10_000, 75_000)})
 		steps = append(steps, flowStep{Kind: "answer", Flow: nflows, User: g.Intn(4)})
 		steps = append(steps, flowStep{Kind: "deliver", Resp: nresps + 1, B: -1, Jar: "expired-kept", Relay: "echo"})
+	}
+	if g.Bool(0.06) {
+		// targeted history: many logins pending in one browser at once (tabs restored after a restart), answered newest first
+		b, d, m := g.Intn(k.Browsers), g.Intn(nd), 9+g.Intn(4)
+		for j := 0; j < m; j++ {
+			steps = append(steps, flowStep{Kind: "start", B: b, SP: d, URL: fmt.Sprintf("/tab/%d", j)})
+		}
+		for j := m - 1; j >= 0; j-- {
+			steps = append(steps, flowStep{Kind: "answer", Flow: nflows + j, User: g.Intn(4)})
+			steps = append(steps, flowStep{Kind: "deliver", Resp: nresps + (m - 1 - j), B: -1, Jar: "faithful", Relay: "echo"})
+		}
 	}
 	for _, s := range steps {
 		p.Steps = append(p.Steps, mustJSON(s))
@@ -268,8 +295,18 @@ func execFlows(t *testing.T, p *Plan) *Result {
 			}
 			if st.Forged {
 				irt = "" // what the IdP vouched for: an answer to no request
+				if k := st.ForgedFrom - 1; k >= 0 && k < len(flows) && k != st.Flow && flows[k].sp == f.sp {
+					irt = flows[k].reqID // ... or to Mallory's own request
+					res.fire("forged-envelope-around-answer-to-another-flow")
+				}
 			}
 			spec := mwResponseSpec(deploys[f.sp], users[st.User%len(users)], irt, len(resps))
+			if st.ConfMethod != "" {
+				for i := range spec.Assertions[0].Confs {
+					spec.Assertions[0].Confs[i].Method = st.ConfMethod
+				}
+				res.probe("non-bearer-confirmation")
+			}
 			if st.Forged {
 				spec.Sign, spec.InResponseTo = false, f.reqID
 				res.fire("forged-envelope")
@@ -355,6 +392,13 @@ func execFlows(t *testing.T, p *Plan) *Result {
 				}
 			case "forged":
 				presented = []*http.Cookie{{Name: f.cookieName, Value: forge(d, f.index, f.reqID, "https://evil.example.com/")}}
+			case "junk-ahead":
+				n := []int{1, 2, 9, 12}[st.Other%4]
+				for j := 0; j < n; j++ {
+					v := []string{"okta", "", "e30.e30.", "not.a.token", f.cookieVal[:len(f.cookieVal)/2]}[(j+st.Other)%5]
+					presented = append(presented, &http.Cookie{Name: []string{"saml_idp_hint", "saml_", "saml_junk", "saml_old"}[j%4] + fmt.Sprint(j), Value: v})
+				}
+				presented = append(presented, toHTTPCookies(faithful)...)
 			case "faithful-plus-planted":
 				presented = append(toHTTPCookies(faithful), &http.Cookie{Name: "saml_" + plantedIndex, Value: forge(d, plantedIndex, f.reqID, "https://evil.example.com/welcome")})
 			case "session-as-tracking":
@@ -421,7 +465,7 @@ func execFlows(t *testing.T, p *Plan) *Result {
 					}
 				}
 			}
-			mustAccept := jar == "faithful" && st.Relay == "echo" && bi == f.b && allowedFresh && respFresh && authentic[r.flow] == 0 && r.irt == f.reqID && !f.completed
+			mustAccept := (jar == "faithful" || jar == "junk-ahead" || jar == "expired-kept") && st.Relay == "echo" && bi == f.b && allowedFresh && respFresh && authentic[r.flow] == 0 && r.irt == f.reqID && !f.completed
 
 			form := url.Values{"SAMLResponse": {r.body}}
 			if relay != "" {
